@@ -326,7 +326,11 @@ impl Script {
         self.op(format!("wire {}", show_bytes(&all[..cut])));
     }
     pub fn emit(self, out: &mut Out, idx: u64, class: &str) {
-        out.case(idx, &format!("{class} nt=1 {}", self.cfg.tok()));
+        self.emit_with(out, idx, class, "")
+    }
+    /// `prefix` = extra cfg tokens (with a trailing space) put in front of the configuration
+    pub fn emit_with(self, out: &mut Out, idx: u64, class: &str, prefix: &str) {
+        out.case(idx, &format!("{class} nt=1 {prefix}{}", self.cfg.tok()));
         for (o, i) in self.lines {
             out.op(&o);
             out.imp(&i);
@@ -583,34 +587,44 @@ pub fn run(args: &Args, out: &mut Out) {
         return;
     }
     let mut idx = 0u64;
+    generate(args, out, &mut idx, "", 1200, 40_000, 0);
+}
+
+/// the generated sessions (also used, with another salt and the `mux=mplex1` prefix, by C24)
+pub fn generate(args: &Args, out: &mut Out, idx: &mut u64, prefix: &str, quick: u64, thorough: u64, salt: u64) {
     // floods over the whole small configuration grid
     for ms in 1..=3usize {
         for mb in 0..=2usize {
             for block in [true, false] {
                 for rep in 0..args.n(2, 20) {
-                    let mut rng = Rng::for_case(args.seed, 10_000_000 + idx * 31 + rep);
+                    let mut rng = Rng::for_case(args.seed ^ salt, 10_000_000 + *idx * 31 + rep);
                     let cfg = Cfg { ms, mb, block, split: 8 };
-                    flood_session(&mut rng, cfg).emit(out, idx, "flood");
-                    idx += 1;
+                    flood_session(&mut rng, cfg).emit_with(out, *idx, "flood", prefix);
+                    *idx += 1;
                 }
             }
         }
     }
     for (j, (ms, overflow)) in [(2usize, false), (3, false), (2, true), (4, true)].iter().enumerate() {
         for block in [true, false] {
-            let mut rng = Rng::for_case(args.seed, 20_000_000 + j as u64);
+            let mut rng = Rng::for_case(args.seed ^ salt, 20_000_000 + j as u64);
             let cfg = Cfg { ms: *ms, mb: 2, block, split: 1 << 20 };
-            backpressure_session(&mut rng, cfg, *overflow).emit(out, idx, "backpressure");
-            idx += 1;
+            backpressure_session(&mut rng, cfg, *overflow).emit_with(out, *idx, "backpressure", prefix);
+            *idx += 1;
         }
     }
-    let n = args.n(1200, 40_000);
+    let n = args.n(quick, thorough);
     for i in 0..n {
-        let mut rng = Rng::for_case(args.seed, i);
+        let mut rng = Rng::for_case(args.seed ^ salt, i);
         let cfg = gen_cfg(&mut rng);
         let hostile = rng.chance(1, 3);
         let steps = 10 + rng.usize(50);
-        random_session(&mut rng, cfg, steps, hostile).emit(out, idx, if hostile { "random-hostile" } else { "random" });
-        idx += 1;
+        random_session(&mut rng, cfg, steps, hostile).emit_with(
+            out,
+            *idx,
+            if hostile { "random-hostile" } else { "random" },
+            prefix,
+        );
+        *idx += 1;
     }
 }
